@@ -234,6 +234,9 @@ def rule_comp(c, prog):
         c.violation(R, "detect|shape", "Chunk::decode has no successful path for compressed_len != 0", fn.sp, instance="zstd-iff-magic-else-lz4")
 
 
+from .C13 import sp_key as C13_sp_key, is_try_ret as C13_is_try_ret
+
+
 def rule_reforder(c, prog, R="C04.disp"):
     """references are resolved only when every instance chunk has been read"""
     fn = common.find_fn(prog, DS + "decode_prop_chunk$")
@@ -308,6 +311,55 @@ def rule_bits(c, prog, R="C04.gram"):
     c.floor(R, n, 2, "bit-field types with bits the document calls meaningless")
 
 
+def rule_prefilter(c, prog, R="C04.pre"):
+    c.rule(R, "decode_prop_chunk leaves a PROP chunk unread only for the documented reasons (no type byte, unknown type byte, the descriptor lookup misses): no test over the wire type / declared type in front of the dispatch match returns Ok(()) — a pre-filter would drop pairs the dispatch has arms for (declared Color3 stored as Color3uint8, narrower numeric encodings)")
+    fn = common.find_fn(prog, DS + "decode_prop_chunk$")
+    # the ways a PROP chunk is left unread are exactly: no type byte, unknown type byte, `Name` (handled apart), property
+    # not found / not serializing (the descriptor lookup).  Any other `return Ok(())` in front of the dispatch `match` —
+    # typically a pre-filter comparing the wire type with the declared type — drops chunks the dispatch has an arm for
+    # (BasePart.Color is declared Color3 and stored as Color3uint8; Int32 for Int64; …)
+    disp = None
+    for n in core.walk_fn(fn, into_closures=False):
+        if n.get("k") == "Match" and n.get("src") == "Normal" and (core.strip(n["e"]).get("ty") or "").endswith("rbx_binary::types::Type") and len(n["arms"]) >= 10:
+            disp = n
+            break
+    if disp is None:
+        raise core.AnchorMissing("decode_prop_chunk: dispatch match over the wire type not found")
+    inside = {id(y) for y in core.walk(disp)}
+    ty_locals = set()
+    for st in core.walk_lets(fn.body):
+        if st["pat"].get("k") == "Binding" and re.search(r"rbx_binary::types::Type$|variant_type::VariantType$|VariantType$", st["pat"].get("ty") or ""):
+            ty_locals.add(st["pat"]["lid"])
+    extra = []
+    for n in core.walk_fn(fn, into_closures=False):
+        if id(n) in inside or n.get("k") not in ("If", "Match") or n.get("src") in ("TryDesugar", "ForLoopDesugar"):
+            continue
+        if C13_sp_key(n) >= C13_sp_key(disp):
+            continue
+        cnd = n.get("c") or n.get("e") or {}
+        # the descriptor lookup takes the wire type as an argument: its miss is the documented `property unknown` skip
+        lookup_ids = set()
+        for y in core.walk(cnd):
+            if y.get("k") == "Call" and (core.callee(y) or "").endswith("find_canonical_property"):
+                lookup_ids |= {id(z) for z in core.walk(y)}
+        mentions = any(y.get("k") == "Path" and y.get("lid") in ty_locals and id(y) not in lookup_ids for y in core.walk(cnd))
+        if not mentions:
+            # a condition computed from the type locals through a let (`let widening = matches!((binary_type, expected)..)`)
+            for y in core.walk(cnd):
+                if y.get("k") == "Path" and y.get("res") == "local":
+                    for st in core.walk_lets(fn.body):
+                        if st["pat"].get("k") == "Binding" and st["pat"].get("lid") == y.get("lid") and st.get("init") is not None and any(z.get("k") == "Path" and z.get("lid") in ty_locals for z in core.walk(st["init"])):
+                            mentions = True
+        rets = [x for x in core.walk(n, into_closures=False) if x.get("k") == "Ret" and core.as_try(x) is None and not C13_is_try_ret(n, x)]
+        if mentions and rets and any(core.fingerprint(r_.get("e", {}), 3).startswith("Result::Ok(") for r_ in rets):
+            # the two documented skips are matches on read_u8() / try_into(), not on a type local
+            extra.append(n)
+    if extra:
+        c.violation(R, "skip|pre-filter", f"decode_prop_chunk leaves the chunk unread on a condition over the wire type / declared type ({core.fingerprint(extra[0].get('c') or extra[0].get('e'), 4)[:80]}) before the dispatch: pairs the dispatch has arms for — a property declared Color3 and stored as Color3uint8, a narrower numeric encoding — are dropped", core.loc(extra[0]), instance="no-type-pre-filter")
+    else:
+        c.ok(R, "no-type-pre-filter")
+
+
 def rule_disp(c, prog):
     R = "C04.disp"
     c.rule(R, "decode_prop_chunk returns Ok(()) — touching no instance — when the type byte is missing or unknown; chunk order is not assumed; INST object format 1 is accepted; unknown chunk names are skipped (see C13.trunc)")
@@ -347,6 +399,7 @@ def rule_disp(c, prog):
         c.ok(R, "skip-before-mutation")
     else:
         c.violation(R, "skip|order", f"decode_prop_chunk touches instances before deciding whether the chunk is skipped ({order[:4]})", fn.sp, instance="skip-before-mutation")
+    rule_prefilter(c, prog)
     # INST: object_format is read and not rejected
     fi = common.find_fn(prog, DS + "decode_inst_chunk$")
     # the object-format byte: the single byte read between the class name (read_string) and the instance count
